@@ -686,8 +686,16 @@ func (c *Ctx) inmemExpiry(r *inmemRoles, rule string) {
 			c.Decide(rule, fn, "range over the table filters expired records", in, found && okAll, "keys are collected from the record table without the expiry decision: expired keys are listed")
 		})
 	}
-	if n < 5 {
-		c.R.Errorf("%s matched %d table reads, below its floor of 5", rule, n)
+	// reads made through the live-lookup helpers count at their call sites
+	for _, fn := range r.svcFns {
+		ir.Instrs(fn, func(in ssa.Instruction) {
+			if call, ok := in.(*ssa.Call); ok && r.liveHelpers[ir.StaticCallee(call)] {
+				n++
+			}
+		})
+	}
+	if n < 7 {
+		c.R.Errorf("%s matched %d table reads (direct or through the live-lookup helper), below its floor of 7", rule, n)
 	}
 }
 
@@ -856,8 +864,8 @@ func (c *Ctx) inmemNotifyAfterMutate(r *inmemRoles, rule string) {
 				"a record is changed or removed and the waiters of its key are not woken on this path (lost wake-up)")
 		})
 	}
-	if n < 7 {
-		c.R.Errorf("%s matched %d mutation sites, below its floor of 7", rule, n)
+	if n < 6 {
+		c.R.Errorf("%s matched %d mutation sites, below its floor of 6", rule, n)
 	}
 }
 
@@ -870,7 +878,12 @@ func sameFieldOfSameCell(a, b ssa.Value) bool {
 	}
 	fa, ok1 := ua.X.(*ssa.FieldAddr)
 	fb, ok2 := ub.X.(*ssa.FieldAddr)
-	return ok1 && ok2 && fa.X == fb.X && fa.Field == fb.Field
+	if ok1 && ok2 && fa.X == fb.X && fa.Field == fb.Field {
+		return true
+	}
+	// the same field of the same record seen through local copies (parameter passing, inlined helpers)
+	ra, rb := ir.FieldRoot(ua), ir.FieldRoot(ub)
+	return ra != "" && ra == rb
 }
 
 func (c *Ctx) inmemWaitRules(r *inmemRoles, w2, w3, w4, w5, w6 string) {
